@@ -122,6 +122,73 @@ Theorem C12_driver_reachable : forall v scripts ops,
 Proof. exact run_case_reach. Qed.
 Print Assumptions C12_driver_reachable.
 
+(* ---- Scale: sharing does not depend on how many other keys are registered (the table of in-flight
+   tasks is unbounded; an entry leaves it only by its own task's completion or dirty() of its key).
+
+   Frame.  In every variant, whatever a key k maps to (a task, or nothing) is not changed by any
+   sequence of actions that concern other keys: calls and dirty() with other keys, completions of
+   tasks created for other keys, bodies starting and suspending (off_key / all_off_key in
+   DedupProofs.v) - of any length. *)
+Theorem C12_frame_other_keys : forall v acts st k,
+  all_off_key v st k acts -> find k (reg (fst (run_micro v st acts))) = find k (reg st).
+Proof. exact frame_run. Qed.
+Print Assumptions C12_frame_other_keys.
+
+(* Registering other keys - any number of calls cs with keys different from k, every variant -
+   never changes the task k maps to, and the next call for k (issued while t's body is not the
+   running one) returns t itself and creates nothing. *)
+Theorem C12_shared_whatever_else_is_registered : forall v cs st c k t,
+  key_of v c = Some k -> find k (reg st) = Some t -> is_running st t = false ->
+  Forall (fun c' => key_of v c' <> Some k) cs ->
+  let st' := fst (run_micro v st (map ACall cs)) in
+  find k (reg st') = Some t /\ micro v st' (ACall c) = (st', MTask t false).
+Proof. exact shared_whatever_else_is_registered. Qed.
+Print Assumptions C12_shared_whatever_else_is_registered.
+
+(* The compact fan-out op of the driver (OFan / BFan: [fn.asynq(i) for i in range(lo, lo + n)]) is
+   exactly its n calls performed one after the other through `micro` ... *)
+Theorem C12_fan_is_calls : forall v d ctx th fn gen inst sp lo n,
+  core (d_fan v d ctx th fn gen inst sp lo n)
+  = fst (run_micro v (core d) (map ACall (fan_calls th fn gen inst sp lo n))).
+Proof. exact fan_is_calls. Qed.
+Print Assumptions C12_fan_is_calls.
+
+(* ... its keys are pairwise distinct (n calls = n keys registered at the same time) ... *)
+Theorem C12_fan_keys_distinct : forall v th fn gen inst sp lo i j ki kj,
+  key_of v (fan_call th fn gen inst sp lo i) = Some ki ->
+  key_of v (fan_call th fn gen inst sp lo j) = Some kj -> i <> j -> ki <> kj.
+Proof. exact fan_keys_distinct. Qed.
+Print Assumptions C12_fan_keys_distinct.
+
+(* ... and for EVERY size n a key that is not one of the fan-out's keeps its task and is shared by
+   the next call, *)
+Theorem C12_shared_after_fan : forall v d ctx th fn gen inst sp lo n c k t,
+  key_of v c = Some k -> find k (reg (core d)) = Some t -> is_running (core d) t = false ->
+  (forall i, (i < Z.to_nat n)%nat -> key_of v (fan_call th fn gen inst sp lo i) <> Some k) ->
+  let st' := core (d_fan v d ctx th fn gen inst sp lo n) in
+  find k (reg st') = Some t /\ micro v st' (ACall c) = (st', MTask t false).
+Proof. exact shared_after_fan. Qed.
+Print Assumptions C12_shared_after_fan.
+
+(* which is the case in particular when the fan-out is over another def statement, another
+   generation of the same def, another thread or (method) another instance. *)
+Theorem C12_fan_of_other_callable_off_key : forall v c k th fn gen inst sp lo,
+  key_of v c = Some k ->
+  (cfn c <> fn \/ cgen c <> gen \/ cthread c <> th \/ (cfn c = 4 /\ fn = 4 /\ cinst c <> inst)) ->
+  forall i : nat, key_of v (fan_call th fn gen inst sp lo i) <> Some k.
+Proof. exact fan_of_other_callable_off_key. Qed.
+Print Assumptions C12_fan_of_other_callable_off_key.
+
+(* satisfiable: one key, then a fan-out of 64 keys of another function, then the first key in
+   another spelling: 65 keys registered, the call returns task 0 *)
+Example C12_example_fan :
+  let c := mkCall 0 0 0 0 [AInt 1] [] in
+  let d := d_call Repaired d_init (-1) c in
+  let d' := d_fan Repaired d (-1) 0 1 0 0 0 0 64 in
+  length (reg (core d')) = 65%nat /\
+  snd (micro Repaired (core d') (ACall (mkCall 0 0 0 0 [] [(N_A, AInt 1)]))) = MTask 0 false.
+Proof. exact example_fan. Qed.
+
 (* the hypotheses are satisfiable: a concrete history in which a second spelling shares and a call
    after completion gets a new task *)
 Example C12_example_share :
